@@ -208,9 +208,11 @@ class Index:
     if len(self.modules) < 40:
       raise AnalysisError(f"only {len(self.modules)} modules found under {pkgdir}; expected >= 40")
     self.canon_log: typing.List[str] = []
+    self.differs_from_reference = False
     if not os.environ.get("TTVERIF_NO_CANON"):
       from . import canon
       self.canon_log = canon.canonicalise(self.modules)
+      self.differs_from_reference = bool(canon.DIFFERS[0] or self.canon_log)
 
   def mod(self, name: str) -> Module:
     m = self.modules.get(name)
